@@ -923,7 +923,9 @@ def verify_function(src, registry: Registry, schema_factory, models, ct: Contrac
                 if synthetic:
                     val = c.synthetic_body(c) if getattr(c, "synthetic_body", None) else None
                 else:
-                    val = ip.run_body(fi, args, {}, None, parent_frame=make_parent_frame(ip, src, fi))
+                    star = getattr(c, "star_kwargs", None)      # symbolic **kwargs of the function under proof
+                    val = ip.run_body(fi, args, {} if star is None else {"**": star}, None,
+                                      parent_frame=make_parent_frame(ip, src, fi))
             except RaiseEx as r:
                 outcome, val = "raise", r.exc
             except PathCut:
